@@ -143,7 +143,7 @@ def rules_planner_links(A: Analysis, rep, F: Optional[PlannerFacts] = None):
         apps = [n for n in apps if id(n.ast) in in_body]
         # every path body-entry -> back edge passes exactly one append
         reach_wo = g.reach(body_entry, removed=apps, skip_labels=skip)
-        ends_without = [n for n in reach_wo if any(m is hdr and l == "loop" for (m, l) in n.succ)]
+        ends_without = [n for n in reach_wo if any(m is hdr and is_back(l) for (m, l) in n.succ)]
         twice = any(b in g.reach([m for (m, l) in a.succ if not skip(l)], skip_labels=skip) for a in apps for b in apps)
         tvar = mirror.target.id if isinstance(mirror.target, ast.Name) else "?"
         arg_ok = True
@@ -159,6 +159,37 @@ def rules_planner_links(A: Analysis, rep, F: Optional[PlannerFacts] = None):
                   "each listed dependency contributes exactly one LoweringTask to lt.deps on every path",
                   "an iteration over task.deps can end %s" % ("without appending to lt.deps (line %s)" % ends_without[0].lineno
                                                               if ends_without else "with two appends / an unrelated value"))
+    # PL10: a LoweringTask linked into lt.deps must be complete (lowered or cached) when lt is lowered.
+    #  (a) a fresh entry must be pushed above lt's own second-visit marker (LIFO ⇒ finished first);
+    #  (b) an entry taken from the memo is complete only if the memo is marked at pop (first visit):
+    #      an entry that is merely *on the stack* (marked at push) may still be unprocessed when a sibling links to it.
+    memos = w.memos()
+    second_push = [p for (p, c) in w.pushes() if c.args and norm(c.args[0]) == F.lt]
+    dep_apps = F.appends("%s.deps" % F.lt)
+    for a in dep_apps:
+        arg = a.ast.value.args[0]
+        srcs = [arg]
+        if isinstance(arg, ast.Name):
+            srcs = [d.value for d in A.defs(fi, arg.id) if isinstance(d, ast.Assign)]
+        for v in srcs:
+            from_memo = [m for m in memos if isinstance(v, ast.Subscript) and norm(v.value) == m]
+            if from_memo:
+                m = from_memo[0]
+                marks = w.marks(m)
+                push_marks = [(n, k) for (n, k) in marks if not (any(t in k for t in w.pop_targets) or (w.stack + ".pop()") in k)]
+                rep.check(not push_marks, "PL10", "memo entries linked as dependencies are complete", a.ast,
+                          "`%s` is marked only at the node's own first visit, so an entry found there has finished lowering (acyclic graph, LIFO)" % m,
+                          "`%s` is marked at push time (line %s): a sibling listed earlier links to an entry that is still unprocessed on the stack, "
+                          "its output_ops is empty and the dependency edge is silently lost" % (m, push_marks[0][0].lineno if push_marks else "?"))
+            elif isinstance(v, ast.Call) and A.res.is_call_to(v, "LoweringTask.initial"):
+                pushed = [p for (p, c) in w.pushes() if c.args and isinstance(arg, ast.Name) and norm(c.args[0]) == arg.id]
+                okp = bool(pushed) and bool(second_push) and all(g.all_paths_pass(w.pop_node(), p, second_push, skip_labels=skip) for p in pushed)
+                rep.check(okp, "PL10", "fresh dependency entries are pushed above the second-visit marker", a.ast,
+                          "the task's own second visit is pushed first, so its dependencies are lowered before it",
+                          "a new dependency entry is not pushed after (above) the task's own second-visit marker — it would be lowered too late")
+            else:
+                rep.bad("PL10", "origin of a linked dependency", a.ast, "`%s` is neither a fresh LoweringTask nor a memo entry" % norm(v)[:60])
+    rep.expect_min("PL10", 2)
     # PL3 output_ops
     out_apps = F.appends("%s.output_ops" % F.lt)
     for (cn, var, call, cls) in F.constructions:
